@@ -66,6 +66,28 @@ func numInt(x *big.Int) *num.Int {
 // buildIntKey constructs key number `variant` over the modulus made of fixture primes
 // (bits, kind)[i] and [j].
 func buildIntKey(bits int, kind string, i, j, variant int, src string) (*intKey, error) {
+	if src == "sampled" || src == "sampled-trapdoor" {
+		// the library's own key generation (safe primes sampled by the library); small moduli
+		// only, because safe-prime generation is slow.
+		id := fmt.Sprintf("%d/%s/%d-%d/%d/%s", bits, kind, i, j, variant, src)
+		k := &intKey{id: id, bits: bits, kind: kind, i: i, j: j, variant: variant, src: src}
+		prng := vlib.NewPRNG(0xC18, "intkey/"+id)
+		var err error
+		if src == "sampled" {
+			k.pub, err = intcom.SampleCommitmentKey(uint(2*bits), prng)
+		} else {
+			k.trap, err = intcom.SampleTrapdoorKey(uint(2*bits), prng)
+			if err == nil {
+				k.pub = k.trap.Export()
+				k.group = k.trap.Group()
+			}
+		}
+		if err != nil {
+			return nil, fmt.Errorf("intcom.Sample*Key(%d): %w", 2*bits, err)
+		}
+		k.n = k.pub.Group().Modulus().Big()
+		return k, nil
+	}
 	ps := vlib.Primes(bits, kind)
 	if len(ps) < 2 {
 		return nil, fmt.Errorf("no fixture primes for %d/%s", bits, kind)
@@ -158,8 +180,14 @@ func drawIntKey(t *rapid.T, label string, allowExtracted bool) *intKey {
 	j := i + 1 + rapid.IntRange(0, 1).Draw(t, label+".j")
 	variant := rapid.IntRange(0, 1).Draw(t, label+".variant")
 	src := "trapdoor"
-	if allowExtracted && rapid.IntRange(0, 3).Draw(t, label+".src") == 0 {
+	switch r := rapid.IntRange(0, 9).Draw(t, label+".src"); {
+	case r <= 1 && allowExtracted:
 		src = "extracted"
+	case r == 2:
+		// keys generated by the library itself (N = 256 bits)
+		return getIntKey(t, 128, "lib-safe", 0, 0, variant, "sampled-trapdoor")
+	case r == 3 && allowExtracted:
+		return getIntKey(t, 128, "lib-safe", 0, 0, variant, "sampled")
 	}
 	return getIntKey(t, bits, kind, i, j, variant, src)
 }
@@ -341,15 +369,14 @@ func TestIntcomOpen(t *testing.T) {
 			// same modulus, independently drawn t and lambda: both generators differ
 			o := otherVariant(t, k)
 			k2 = o.pub
-			semantic = (mB.Sign() != 0 || wB.Sign() != 0) && !k2.Equal(k.pub)
+			semantic = o.n.Cmp(k.n) != 0 || ((mB.Sign() != 0 || wB.Sign() != 0) && !k2.Equal(k.pub))
 		case "key:other-modulus":
 			o := drawIntKey(t, "key2", true)
 			k2 = o.pub
 			semantic = o.n.Cmp(k.n) != 0 || ((mB.Sign() != 0 || wB.Sign() != 0) && !k2.Equal(k.pub))
 		case "key:extracted":
 			// same modulus, generators derived from a transcript
-			o := getIntKey(t, k.bits, k.kind, k.i, k.j, rapid.IntRange(0, 1).Draw(t, "xvariant"), "extracted")
-			k2 = o.pub
+			k2 = extractedOver(t, k, rapid.IntRange(0, 1).Draw(t, "xvariant"))
 			semantic = (mB.Sign() != 0 || wB.Sign() != 0) && !k2.Equal(k.pub)
 		case "com:other":
 			o, mo, wo, _, _ := intCommit(t, k, "c2", false)
@@ -413,7 +440,24 @@ func TestIntcomOpen(t *testing.T) {
 }
 
 func otherVariant(t *rapid.T, k *intKey) *intKey {
+	if k.kind == "lib-safe" {
+		return getIntKey(t, k.bits, k.kind, k.i, k.j, 1-k.variant, k.src) // another sampled modulus
+	}
 	return getIntKey(t, k.bits, k.kind, k.i, k.j, 1-k.variant, "trapdoor")
+}
+
+// extractedOver returns a transcript-derived key over the same modulus as k.
+func extractedOver(t *rapid.T, k *intKey, variant int) *intcom.CommitmentKey {
+	if k.kind != "lib-safe" {
+		return getIntKey(t, k.bits, k.kind, k.i, k.j, variant, "extracted").pub
+	}
+	tr := hagrid.NewTranscript("c18-intcom")
+	tr.AppendBytes("variant", []byte{byte(variant)})
+	pub, err := intcom.ExtractCommitmentKey(tr, "ring-pedersen", k.pub.Group())
+	if err != nil {
+		t.Fatalf("intcom.ExtractCommitmentKey over %s: %v", k.id, err)
+	}
+	return pub
 }
 
 // ---- homomorphism ----------------------------------------------------------------------------
